@@ -57,6 +57,17 @@ def gen_world(rng, max_wrappers=5):
     for i in range(n_impl):
         wrappers.append({"kind": "base", "impl": i, "parent": None, "auth": False})
     for _ in range(rng.randint(1, max_wrappers)):
+        mcs = [j for j, w in enumerate(wrappers) if w["kind"].startswith("mcaller")]
+        if mcs and rng.random() < 0.25:
+            # a clone of a method caller (optionally with new credentials or another adapter): still the same
+            # underlying connection
+            p = rng.choice(mcs)
+            pw = wrappers[p]
+            how = rng.choice(["none", "prefix", "auth"] if not pw["auth"] else ["none", "prefix"])
+            wrappers.append({"kind": "mcaller_clone", "impl": pw["impl"], "parent": p, "how": how,
+                             "auth": pw["auth"] or how == "auth", "idsetter": pw.get("idsetter"),
+                             "failing": bool(pw.get("failing")), "nested": int(pw.get("nested") or 0)})
+            continue
         cands = [j for j, w in enumerate(wrappers) if not w["kind"].startswith("mcaller")]
         p = rng.choice(cands)
         pw = wrappers[p]
@@ -236,6 +247,14 @@ def build_world(spec):
                         """issue one request"""
                         return getattr(self.get_conn(), verb)(path, **kw)
                 o = SimCaller(parent)
+            elif kind == "mcaller_clone":
+                how = w.get("how", "none")
+                if how == "auth":
+                    o = parent.clone(ch.BAuthConn.Adapter("clone-user", "pw"))
+                elif how == "prefix":
+                    o = parent.clone([ch.RequestAdapterAddPathPrefix("/cl")])
+                else:
+                    o = parent.clone()
             else:
                 raise ValueError(kind)
         objs.append(o)
